@@ -76,6 +76,7 @@ type Runner struct {
 	maxSamples int
 	sigSeen  map[string]int
 	CurIdx   int
+	completed bool
 	CurCase  any
 }
 
@@ -263,23 +264,39 @@ func (r *Runner) SetExhaustive(b bool) { r.res.Exhaustive = b }
 // Bubble runs f inside a synctest bubble and converts a bubble deadlock (or
 // any panic on the bubble's root goroutine) into a returned string.
 func (r *Runner) Bubble(f func()) (failure string) {
-	defer func() {
-		if p := recover(); p != nil {
-			failure = fmt.Sprintf("%v", p)
-			if !strings.Contains(failure, "deadlock") {
-				failure += "\n" + string(debug.Stack())
+	// synctest.Test calls t.FailNow (runtime.Goexit) on the calling goroutine
+	// when the bubble's T failed, e.g. after a race report; run it on a
+	// goroutine of its own so that the case loop survives.
+	done := make(chan struct{})
+	go func() {
+		defer close(done)
+		defer func() {
+			if p := recover(); p != nil {
+				failure = fmt.Sprintf("%v", p)
+				if !strings.Contains(failure, "deadlock") {
+					failure += "\n" + string(debug.Stack())
+				}
 			}
-		}
+		}()
+		synctest.Test(r.T, func(*testing.T) { f() })
 	}()
-	synctest.Test(r.T, func(*testing.T) { f() })
-	return ""
+	<-done
+	return failure
+}
+
+// Done marks the workload as having run to its end; a result without it is
+// treated as an abnormal death by the orchestrator.
+func (r *Runner) Done() {
+	r.mu.Lock()
+	r.completed = true
+	r.mu.Unlock()
 }
 
 // Finish writes the result file.
 func (r *Runner) Finish() {
 	r.mu.Lock()
 	defer r.mu.Unlock()
-	r.res.Complete = true
+	r.res.Complete = r.completed
 	r.res.WallS = time.Since(r.start).Seconds()
 	r.res.Nontrivial = make([]uint64, 0, len(r.nt))
 	for h := range r.nt {
